@@ -268,6 +268,8 @@ def _check_overflowing_style(b, steps):
             ok = False
             for e in nonzero:
                 e2 = mir.strip_casts(e)
+                while is_call(e2, ("from", "into")) and len(e2[3]) == 1:
+                    e2 = mir.strip_casts(e2[3][0])          # u64::from(c1 | c2)
                 if is_bin(e2, "BitOr") and {mir.strip_casts(e2[2]), mir.strip_casts(e2[3])} == want:
                     ok = True
             if not ok:
@@ -275,7 +277,12 @@ def _check_overflowing_style(b, steps):
         else:
             if outer[3][1] != cv:
                 probs.append("word step does not consume the carry: %s" % show(outer)[:80])
-            if not any(mir.strip_casts(e) == ("field", outer, "1") for e in nonzero):
+            def _flag(e):
+                e = mir.strip_casts(e)
+                while is_call(e, ("from", "into")) and len(e[3]) == 1:
+                    e = mir.strip_casts(e[3][0])
+                return e
+            if not any(_flag(e) == ("field", outer, "1") for e in nonzero):
                 probs.append("carry-out of the remaining-words step is not its overflow flag")
     if len(writes) < 2:
         probs.append("expected a common-words loop and a remaining-words loop")
@@ -721,6 +728,14 @@ def length_effects(crate):
     return res
 
 
+def _is_byte_len(e, L):
+    """(L + 7) / 8 in either spelling"""
+    e = mir.strip_casts(e)
+    if e[0] == "var" and len(e) > 2:
+        return False
+    return e == ("bin", "Div", ("bin", "Add", L, ("int", 7)), ("int", 8)) or (is_call(e, "div_ceil") and len(e[3]) == 2 and e[3] == (L, ("int", 8)))
+
+
 def buffer_sizes(crate):
     """to_vec / read buffers have (len+7)/8 bytes"""
     res = []
@@ -728,15 +743,17 @@ def buffer_sizes(crate):
         if b.trait == "BitVector" and b.name in ("to_vec", "read") and b.self_family in ("Bvf", "Bvd"):
             L = SELF_LEN if b.name == "to_vec" else P(b.local_name(2))
             want = ("bin", "Div", ("bin", "Add", L, ("int", 7)), ("int", 8))
-            ok = any(n == want for x, n in b.alloc_exprs())
+            ok = any(_is_byte_len(n, L) for x, n in b.alloc_exprs())
             how = "byte buffer has (%s + 7) / 8 bytes" % show(L)
             if not ok and b.name == "to_vec":
                 # (0..n).map(..).collect() / (0..n).rev().map(..).collect(): one byte per index of 0..(len + 7) / 8
                 ret = b.return_expr()
                 alts = ret[2] if ret[0] == "phi" else (ret,)
                 def ranged(a):
-                    return is_call(a, "collect") and any(x[0] == "agg" and x[1] == "Range" and len(x[3]) == 2 and x[3] == (("int", 0), want)
-                                                          for x in walk(a) if isinstance(x, tuple) and x)
+                    if a[0] == "var" and len(a) > 2 and b.init_expr(a[2]) is not None:
+                        a = b.init_expr(a[2])          # `let mut buf = (0..n).map(..).collect(); if big { buf.reverse() } buf`
+                    return is_call(a, "collect") and any(x[0] == "agg" and x[1] == "Range" and len(x[3]) == 2 and x[3][0] == ("int", 0)
+                                                          and _is_byte_len(x[3][1], L) for x in walk(a) if isinstance(x, tuple) and x)
                 if alts and all(ranged(a) for a in alts):
                     ok = True
                     how = "every returned byte stream is collected from the index range 0..(len + 7) / 8"
@@ -827,7 +844,7 @@ def read_protocol(crate):
         if root is not None:
             init = b.init_expr(root[2])
             want = ("bin", "Div", ("bin", "Add", P(b.local_name(2)), ("int", 7)), ("int", 8))
-            if init is not None and is_call(init, "collect") and is_call(init[3][0], "take") and init[3][0][3][1] == want:
+            if init is not None and is_call(init, "collect") and is_call(init[3][0], "take") and _is_byte_len(init[3][0][3][1], P(b.local_name(2))):
                 ok = True
         if not ok:
             res.append((b, key, "violation", "read_exact does not fill the whole (len + 7) / 8 byte buffer (%s)" % show(buf)))
@@ -1228,7 +1245,11 @@ def trait_defaults(crate):
             shown = sorted(show(a) for a in alts)
             sign_ok = len(alts) == 2 and any(x.endswith("Zero") for x in shown) and any(
                 is_call(a, "get") and is_bin(a[3][1], "Sub") and a[3][1][3] == ("int", 1) for a in alts)
-        res.append((b, "ORDER sign_extend", "pass" if ok and sign_ok else "violation",
+        if ok and not sign_ok and crate.closures_of.get(b.path):
+            res.append((b, "ORDER sign_extend", "undecided", "the sign bit is selected inside a closure (combinator style): not decided"))
+            ok = None
+        if ok is not None:
+          res.append((b, "ORDER sign_extend", "pass" if ok and sign_ok else "violation",
                     "resize(new_length, match len {0 => Zero, l => get(l-1)})" if ok and sign_ok else "sign_extend has an unexpected shape"))
     for nm, idx in (("first", ("int", 0)), ("last", None)):
         b = defaults.get(nm)
